@@ -35,13 +35,20 @@ def _const(n):
 
 def check(prog, rep, rule):
     rep.rule(rule, 'JSON and XML adapters: the memory-input and the stream-input constructor of the root scope give the third-party parser the '
-                   'same option set (RapidJSON parse flags, pugixml parse options)', floor=2)
+                   'same option set (RapidJSON parse flags, pugixml parse options) and validate the bytes of strings alike', floor=3)
     dflt = None
     for f in prog.funcs.values():
         if f.name == 'witness_rapidjson_default_parse_flags' and f.body is not None:
             for n in f.walk():
                 if n['k'] == 'DeclRefExpr' and n.get('q') == 'rapidjson::kParseDefaultFlags' and 'cv' in n:
                     dflt = n['cv']
+    vflag = None
+    for f in prog.funcs.values():
+        if f.name == 'witness_rapidjson_validate_encoding_flag' and f.body is not None:
+            for n in f.walk():
+                if n['k'] == 'DeclRefExpr' and n.get('q') == 'rapidjson::kParseValidateEncodingFlag' and 'cv' in n:
+                    vflag = n['cv']
+    validates = {}
     sides = {'json': {}, 'xml': {}}
     for f in sorted(prog.funcs.values(), key=lambda g: g.id):
         if f.body is None or f.name not in ('RapidJsonRootScope', 'PugiXmlRootScope') or not f.params:
@@ -70,6 +77,31 @@ def check(prog, rep, rule):
                         rep.defer_broken('%s: the value of rapidjson::kParseDefaultFlags is not in the facts (witness_rapidjson_default_parse_flags)' % rule)
                         val = 'kParseDefaultFlags'
                 sides[kind].setdefault(side, []).append((f, n, c.get('n'), val))
+                # are the bytes of a string checked to be well-formed? RapidJSON validates when it transcodes (source encoding given as a
+                # template argument different from the document's) or when kParseValidateEncodingFlag is set; parsing UTF8 -> UTF8 with the
+                # default flags copies the bytes unchecked
+                doc_enc = re.search(r'GenericDocument<([^>]*(?:<[^>]*>)?)', c.get('id', ''))
+                src_enc = None
+                if ta:
+                    parts = []
+                    depth_, cur_ = 0, ''
+                    for ch in ta:
+                        if ch in '<(':
+                            depth_ += 1
+                        elif ch in '>)':
+                            depth_ -= 1
+                        if ch == ',' and depth_ == 0:
+                            parts.append(cur_.strip())
+                            cur_ = ''
+                        else:
+                            cur_ += ch
+                    parts.append(cur_.strip())
+                    if len(parts) > 1 and parts[1].startswith('rapidjson::') and 'Stream' not in parts[1]:
+                        src_enc = parts[1]
+                transcodes = src_enc is not None and doc_enc is not None and src_enc.replace(' ', '') != doc_enc.group(1).replace(' ', '')
+                flagged = isinstance(val, int) and vflag is not None and bool(val & vflag)
+                validates[side] = (transcodes or flagged, f, n, 'transcoding %s -> %s' % (src_enc, doc_enc.group(1)) if transcodes else
+                                   ('kParseValidateEncodingFlag' if flagged else 'same encoding, default flags: bytes copied unchecked'))
             elif kind == 'xml' and c.get('n') in XML_PARSERS and 'pugi::xml_document' in c.get('id', ''):
                 args = [a for a in n.get('c', [])][1:]   # c[0] is the callee expression
                 idx = XML_PARSERS[c['n']]
@@ -78,6 +110,17 @@ def check(prog, rep, rule):
                     rep.defer_broken('%s: the options argument of %s at %s is not a constant the rule can evaluate' % (rule, c['n'], f.loc(n)))
                     continue
                 sides[kind].setdefault(side, []).append((f, n, c['n'], val))
+    if vflag is None:
+        rep.defer_broken('%s: the value of rapidjson::kParseValidateEncodingFlag is not in the facts (witness)' % rule)
+    elif 'memory' in validates and 'stream' in validates:
+        (vm, fm_, nm_, wm), (vs, fs_, ns_, ws) = validates['memory'], validates['stream']
+        if vm == vs:
+            rep.ok(rule, 'json|string bytes validated alike (%s)' % ('both' if vm else 'neither'), sample={'memory': wm, 'stream': ws})
+        else:
+            rep.finding(rule, 'json|string encoding validated for %s input only' % ('memory' if vm else 'stream'), (fs_ if vs else fm_).loc(ns_ if vs else nm_),
+                        'json adapter: ill-formed UTF-8 inside a string is %s when the document comes from memory (%s) and %s when it comes from a '
+                        'stream (%s): the same document loads from one kind of input and is a parsing error from the other'
+                        % ('refused' if vm else 'accepted', wm, 'refused' if vs else 'accepted', ws), func=(fs_ if vs else fm_).id)
     for kind, d in sides.items():
         if 'memory' not in d or 'stream' not in d:
             raise AnalysisBroken('%s: %s adapter: parser call of the %s constructor not found' % (rule, kind, 'memory' if 'memory' not in d else 'stream'))
